@@ -66,6 +66,9 @@ type pullProxy struct {
 	isSessionPulling bool // 是否正在pull，注意，这是一个内部状态，表示的是session的状态，而不是整体任务应该处于的状态
 	rtmpSession      *rtmp.PullSession
 	rtspSession      *rtsp.PullSession
+
+	// 正在建立中（还没有挂到group上）的pull session。group销毁时需要能够关闭它
+	pendingSession base.IObject
 }
 
 // initRelayPullByConfig 根据配置文件中的静态回源配置来初始化回源设置
@@ -246,6 +249,12 @@ func (group *Group) pullIfNeeded() (string, error) {
 		uk = rtspSession.UniqueKey()
 	}
 
+	if isPullByRtmp {
+		group.pullProxy.pendingSession = rtmpSession
+	} else {
+		group.pullProxy.pendingSession = rtspSession
+	}
+
 	go func(rtPullUrl string, rtIsPullByRtmp bool, rtRtmpSession *rtmp.PullSession, rtRtspSession *rtsp.PullSession) {
 		if rtIsPullByRtmp {
 			// TODO(chef): 处理数据回调，是否应该等待Add成功之后。避免竞态条件中途加入了其他in session
@@ -347,4 +356,15 @@ func (group *Group) shouldAutoStopPull() bool {
 	// 是否达到时间阈值
 	nazalog.Debugf("%d %d %d", group.pullProxy.lastHasOutTs, time.Now().UnixNano(), group.pullProxy.autoStopPullAfterNoOutMs)
 	return group.pullProxy.lastHasOutTs != -1 && time.Now().UnixNano()/1e6-group.pullProxy.lastHasOutTs >= int64(group.pullProxy.autoStopPullAfterNoOutMs)
+}
+
+// disposePull group销毁时调用：关闭已经挂上的以及还在建立中的pull session，并且不再重新拉流
+func (group *Group) disposePull() {
+	group.pullProxy.staticRelayPullEnable = false
+	group.pullProxy.apiEnable = false
+	group.stopPull()
+	if d, ok := group.pullProxy.pendingSession.(interface{ Dispose() error }); ok && d != nil {
+		_ = d.Dispose()
+	}
+	group.pullProxy.pendingSession = nil
 }
